@@ -610,7 +610,7 @@ func (c *Ctx) instr(fr *Frame, st *State, reach string, ins ssa.Instruction) {
 				checked = c.refineBoundMethod(fr, st, reach, x, fn, c.val(fr, x.Bindings[0]))
 			}
 			if checked {
-				c.depsUsed["method value "+fn.Name()+" bound as a callback: its preconditions are checked against the callback contract of the use site (obligations `refines`); that its effects stay within the callback contract's postconditions and frame is assumed"] = true
+				c.depsUsed["method value "+fn.Name()+" bound as a callback: its preconditions are checked against the callback contract at the binding site, and its contract against the callback postconditions declared `bindensures` (obligations `refines`); the callback contract's other postconditions and its frame are assumed of the method"] = true
 			} else {
 				c.depsUsed["method value "+fn.Name()+" passed as a callback: assumed to satisfy the callback contract of its use site (refinement not checked)"] = true
 			}
@@ -1365,6 +1365,68 @@ func (c *Ctx) refineBoundMethod(fr *Frame, st *State, reach string, x *ssa.MakeC
 		for k, rq := range mct.Requires {
 			f := c.evalBool(menv, rq.Expr, rq.Text)
 			c.obligeProps("refines", fmt.Sprintf("%s:%s/%d", key, shortFn(m), k), reach, f, x.Pos(), "callback contract of "+key+" implies the precondition of "+shortFn(m)+": "+rq.Text, rq.Props)
+		}
+		// postconditions: M's contract, applied to the state in which the callback fires, implies every ensures of CB
+		// (under CB's `bindassume` hypotheses, which restrict the binding-site check and are recorded as assumptions)
+		if len(cb.BindEnsures) > 0 {
+			for _, rq := range mct.Requires {
+				c.assume(reach, c.evalBool(menv, rq.Expr, rq.Text))
+			}
+			for _, ba := range cb.BindAssume {
+				c.assume(reach, c.evalBool(cenv, ba.Expr, ba.Text))
+				c.depsUsed["refinement of "+key+" by "+shortFn(m)+" is checked only under: "+ba.Text] = true
+			}
+			st3 := st2.clone()
+			menv3 := &CEnv{c: c, st: st3, old: st3, lookup: mkLookup(mn, margs, nil), pkg: mn.pkg}
+			topBefore := c.top
+			c.applyModifies(mct, menv3, st3, reach)
+			var resT types.Type = sig.Results()
+			if sig.Results().Len() == 1 {
+				resT = sig.Results().At(0).Type()
+			}
+			var res Val
+			if sig.Results().Len() > 0 {
+				res = c.freshVal(resT, "ret")
+			}
+			penv := &CEnv{c: c, st: st3, old: st2, lookup: mkLookup(mn, margs, res), pkg: mn.pkg, topBefore: topBefore}
+			if len(mct.Ghosts) > 0 {
+				gv := map[string]CVal{}
+				for _, g := range mct.Ghosts {
+					if t := ghostType(g.Type); t != nil {
+						gv[g.Name] = CVal{V: c.freshVal(t, "ghost_"+g.Name), T: t}
+					}
+				}
+				base := penv.lookup
+				penv.lookup = func(name string, old bool) (CVal, bool) {
+					if v, ok := gv[name]; ok {
+						return v, true
+					}
+					return base(name, old)
+				}
+			}
+			for _, en := range mct.Ensures {
+				c.assume(reach, c.evalBool(penv, en.Expr, en.Text))
+			}
+			cbn2 := cbn
+			for i := 0; i < sig.Results().Len(); i++ {
+				nm := sig.Results().At(i).Name()
+				if nm == "" || nm == "_" {
+					nm = fmt.Sprintf("r%d", i)
+				}
+				cbn2.results = append(cbn2.results, nm)
+				cbn2.rtypes = append(cbn2.rtypes, sig.Results().At(i).Type())
+			}
+			if len(cb.Results) == len(cbn2.results) {
+				cbn2.results = cb.Results
+			}
+			cpenv := &CEnv{c: c, st: st3, old: st2, lookup: mkLookup(cbn2, args, res), topBefore: topBefore}
+			for k, en := range cb.Ensures {
+				if !cb.BindEnsures[k] {
+					continue
+				}
+				f := c.evalBool(cpenv, en.Expr, en.Text)
+				c.obligeProps("refines", fmt.Sprintf("%s:%s/post%d", key, shortFn(m), k), reach, f, x.Pos(), "contract of "+shortFn(m)+" implies the callback postcondition of "+key+": "+en.Text, en.Props)
+			}
 		}
 		done = true
 	}
